@@ -235,6 +235,9 @@ def configurations(tier):
         for dest in ('absent', 'present'):
             for w in ('echo', 'minify'):
                 cfgs.append(('build', fmt, dest, w))
+    # a zero-byte file at the destination
+    empties = [('to_file', 'p8', 'empty', 'minify'), ('to_file', 'png', 'empty', 'echo'), ('luamin', 'p8', 'empty', 'minify'),
+               ('writep8', 'png', 'empty', 'echo'), ('build', 'p8', 'empty', 'echo'), ('luafmt', 'p8', 'empty', 'format')]
     # the same under --debug and at the default verbosity (what is logged may not change what is written)
     verbose = [('to_file', 'p8', 'present', 'minify', 'debug'), ('to_file', 'png', 'present', 'echo', 'debug'),
                ('to_file', 'p8', 'absent', 'format', 'debug'), ('luamin', 'p8', 'present', 'minify', 'debug'),
@@ -243,6 +246,7 @@ def configurations(tier):
     if tier == 'quick':
         verbose = verbose[:4]
     cfgs += verbose
+    cfgs += [e + ('quiet',) for e in (empties[:3] if tier == 'quick' else empties)]
     if tier == 'quick':
         keep = [('to_file', 'p8', 'present', 'format'), ('to_file', 'png', 'present', 'minify'),
                 ('to_file', 'p8', 'absent', 'minify'), ('to_file', 'png', 'absent', 'echo'),
@@ -286,6 +290,9 @@ class Env(object):
             open(self.lua, 'wb').write(CODE)
             self.gfxsrc = os.path.join(self.d, 'gfxsrc.p8')
             open(self.gfxsrc, 'wb').write(c13.ref_p8(self.fills, b'x=1\n'))
+        if dest == 'empty':
+            # a file of zero bytes at the destination (touch; the leftover of an interrupted tool)
+            self.old = b''
         self.reset()
 
     def reset(self):
@@ -374,6 +381,16 @@ def run_config_source(cfg, source, res):
         clean_bytes = open(env.dest, 'rb').read() if os.path.exists(env.dest) else None
         res.evaluations += 1
         case0 = {'cfg': list(cfg), 'source': source, 'k': 0}
+        if failed and dest == 'empty':
+            # an empty file is not a cart: a command that reads its destination first (label source, build's OUT) may
+            # refuse - and then the empty file is still there
+            after = open(env.dest, 'rb').read() if os.path.exists(env.dest) else None
+            if after != b'' or sorted(os.listdir(env.d)) != env.listing:
+                res.violation('C11|destination-%s|%s|%s|refused-empty-destination' % ('deleted' if after is None else 'overwritten', entry, fmt),
+                              '%r refused the zero-byte destination (%r) but did not leave it as it was' % (cfg, info), case0)
+            else:
+                res.outcome((entry, fmt, 'refused-empty'))
+            return
         if failed:
             res.violation('C11|clean-run-fails|%s|%s' % (entry, fmt), 'the unfaulted write %r failed: %r' % (cfg, info), case0)
             return
